@@ -87,8 +87,8 @@ def batches(tier, seed):
         for np_, sl, rnd in ((1, 4, 1500), (2, 4, 2500), (3, 3, 2500), (4, 3, 2000)):
             out.append(_b(np_, seed * 100 + np_, sl, rnd, tier, "np%d" % np_, 600))
     else:
-        for np_, sl, rnd in ((1, 5, 20000), (2, 5, 30000), (3, 5, 30000), (4, 4, 30000), (5, 4, 8000), (6, 3, 6000),
-                             (8, 3, 4000)):
+        for np_, sl, rnd in ((1, 5, 20000), (2, 5, 30000), (3, 5, 30000), (4, 4, 30000), (5, 3, 3000), (6, 3, 2500),
+                             (8, 3, 1500)):
             out.append(_b(np_, seed * 100 + np_, sl, rnd, tier, "np%d" % np_, 3000, wrapenum=1 if np_ <= 4 else 0))
         for k, np_ in enumerate((2, 3, 4)):
             out.append(_b(np_, seed * 7919 + 31 + k, 1, 30000, tier, "np%d_r" % np_, 3000))
